@@ -355,6 +355,12 @@ def run_config(chk, driver, rng, c, stream, batch, p, assumed, oracle=True):
             chk.count("toml_library_cannot_read_value")
             return None
         p.write_text(fname, text)
+        # an EARLIER candidate config file that exists but holds no bumpver configuration must not be chosen over this one
+        order = ["pycalver.toml", "bumpver.toml", ".bumpver.toml", "pyproject.toml", "setup.cfg"]
+        earlier = order[:order.index(fname)]
+        decoy = rng.choice(earlier) if (earlier and rng.random() < 0.3) else None
+        if decoy:
+            p.write_text(decoy, {"pyproject.toml": '[build-system]\nrequires = ["setuptools"]\n'}.get(decoy, "# nothing configured here\n"))
         try:
             # (a) the parser assumption
             real = impl.ini_raw(text) if kind == "cfg" else impl.toml_raw(text)
@@ -401,6 +407,8 @@ def run_config(chk, driver, rng, c, stream, batch, p, assumed, oracle=True):
                                 "explicit_self": any(f["name"] == fname for f in cf["files"])})
         finally:
             os.unlink(p.path(fname))
+            if decoy:
+                os.unlink(p.path(decoy))
     if oracle and results:
         case = {"stream": stream, "cfg": c, "texts": {r["format"]: r["text"] for r in results}}
         verdict = judge(c, results)
